@@ -182,11 +182,13 @@ func propDefs() map[string]propDef {
 	const dr = "processors/auditd/dirreader."
 	m["C20"] = propDef{ID: "C20", Level: "proof",
 		Units: []unit{u(dr + "sortLogNamesOldToNew"), u(dr + "readLines"), u(dr + "readFilePathLines"), u(dr + "(*rotatingFile).read"), u(dr + "(*rotatingFile).setOffset"),
-			u(dr + "(*rotatingFile).incOffsetBy"), u(dr + "(*rotatingFile).getOffset")},
+			u(dr + "(*rotatingFile).incOffsetBy"), u(dr + "(*rotatingFile).getOffset"),
+			u(dr + "(*LogDirReader).loopWithError"), u(dr + "(*LogDirReader).loopWithError$2"), u(dr + "(*rotatingFile).readWithRetry")},
 		Assume: []string{bufioDoc, "sort.Slice sorts in place with respect to the caller's less closure (assumed contract, evaluated symbolically on the closure body)",
 			"file names with the prefix audit.log in the directory are audit.log or audit.log.N with N >= 1 in canonical decimal",
-			"loopWithError (goroutines, select over fsnotify events) is not under contract: only the functions it calls are; fsnotify event delivery and the OS are not decided"},
-		Explain: "sortLogNamesOldToNew: the result contains exactly the kept directory entries and is ordered by age (audit.log.N before audit.log.M for N > M, the live log last) — for any number of files; readLines: loop invariant over the assumed bufio contract: the lines sent are exactly the complete records without their newline, in order, and the byte count is the sum of the complete records (the unterminated tail is neither delivered nor counted); rotatingFile.read: create/remove/rename reset the offset, other events leave everything unchanged, a write event delivers the complete lines after the offset and advances it by whole lines only",
+			"backoff.Retry (dependency) only runs the operation it is given: assumed frame of rotatingFile.boFn",
+			"goroutine model for loopWithError: each initial-file reader goroutine is represented by its contract (sends exactly one completion message); tokens(ch) = queued messages + readers still to send; a receive on the token-tracked channel completes only if tokens >= 1 (all producers are visible: structural obligation tokens:initFileDone:tracked); fsnotify event delivery and the OS are not decided"},
+		Explain: "sortLogNamesOldToNew: the result contains exactly the kept directory entries and is ordered by age (audit.log.N before audit.log.M for N > M, the live log last) — for any number of files; readLines: loop invariant over the assumed bufio contract: the lines sent are exactly the complete records without their newline, in order, and the byte count is the sum of the complete records (the unterminated tail is neither delivered nor counted); loopWithError: loop invariant tokens(initFileDone) == (initial phase ? 1 : 0) — hence never two initial readers at once; reader k is started for initFileNames[k] (k = number started so far) only when no reader is outstanding; the live tail (readWithRetry) and close(initFilesDone) happen only when all initial files have been started and none is outstanding; the offset of the live log is set from the byte count of its initial read; rotatingFile.read: create/remove/rename reset the offset, other events leave everything unchanged, a write event delivers the complete lines after the offset and advances it by whole lines only",
 	}
 	m["C08"] = propDef{ID: "C08", Level: "other",
 		Units: []unit{u("internal/common.IsNamedPipe"), u("cmd.RunNamedPipe$3"), u("cmd.RunNamedPipe$4"), u("cmd.RunNamedPipe$5"), u("main.main"), u("main.mainWithError"),
